@@ -1,9 +1,12 @@
 package engine
 
 import (
+	"encoding/json"
 	"fmt"
 	"strings"
 	"sync"
+	"sync/atomic"
+	"time"
 )
 
 // Dim is one named dimension of an input space; Vals[0] is the default (valid) value.
@@ -210,6 +213,10 @@ func (c *Check) RunE1(e E1) {
 		if part != e.Part {
 			return
 		}
+		if desc["__concurrent_with"] != "" {
+			c.replayConcurrent(&e, desc)
+			return
+		}
 		v, err := e.Space.FromDescription(desc)
 		if err != nil {
 			c.Internal("replay: " + err.Error())
@@ -223,6 +230,8 @@ func (c *Check) RunE1(e E1) {
 	W := Workers()
 	ch := make(chan []Vec, 4*W)
 	var wg sync.WaitGroup
+	var qmu sync.Mutex
+	var quarantine []quarantined
 	var skipped int64
 	var smu sync.Mutex
 	for w := 0; w < W; w++ {
@@ -246,7 +255,14 @@ func (c *Check) RunE1(e E1) {
 						// re-run every violation candidate 4 more times before believing it
 						for i := 0; i < 4; i++ {
 							if r2 := run(v); r2.Sig != r.Sig || r2.Outcome != r.Outcome {
-								c.Internal(fmt.Sprintf("violation candidate not reproducible in %s for %v: %+v vs %+v", e.Part, e.Space.Describe(v), r, r2))
+								// Not believed as it stands. The other workers keep calling the library while this one
+								// re-runs, so the cause may be the library (calls disturbing each other through shared
+								// state) rather than the harness: decided after the enumeration, see settleQuarantine.
+								qmu.Lock()
+								if len(quarantine) < 64 {
+									quarantine = append(quarantine, quarantined{v: append(Vec(nil), v...), batch: batch, first: r, other: r2})
+								}
+								qmu.Unlock()
 								r.Sig = ""
 								break
 							}
@@ -281,6 +297,7 @@ func (c *Check) RunE1(e E1) {
 	}
 	close(ch)
 	wg.Wait()
+	c.settleQuarantine(&e, quarantine)
 	smu.Lock()
 	defer smu.Unlock()
 	part := map[string]any{"part": e.Part, "executed": produced, "skipped_meaningless": skipped, "k": e.K, "ks": e.Ks,
@@ -310,4 +327,136 @@ func Has(list, item string) bool {
 		}
 	}
 	return false
+}
+
+// quarantined is a violation candidate that did not reproduce while the other workers were running.
+type quarantined struct {
+	v            Vec
+	batch        []Vec
+	first, other Result
+}
+
+// settleQuarantine decides, once every worker has stopped, what a non-reproducible violation candidate was.
+//
+//   - The case is re-executed five times with nothing else running. Unstable: the harness (or the case) is
+//     nondeterministic on its own - internal error, as before.
+//   - Stable and violating: the violation is real (the disturbance hid it on a re-run); recorded as such.
+//   - Stable and fine: the disagreement only appeared while OTHER calls into the library ran at the same time.
+//     The cases are independent by construction (every worker has its own fixtures, NewWorker(w)), so the only
+//     thing they share is the library's package-level state. Confirmation: the case and the cases of its batch are
+//     executed sequentially (reference results), then the same cases are executed from Workers() free-running
+//     goroutines; a result that differs from its sequential reference is reported as an interference violation.
+//     This confirmation is NOT exhaustive (free-running schedules are sampled); it never reports without an
+//     observed disagreement, and without one the candidate stays an internal error.
+func (c *Check) settleQuarantine(e *E1, qs []quarantined) {
+	seen := map[string]bool{}
+	for _, q := range qs {
+		key := q.first.Sig
+		if seen[key] {
+			continue
+		}
+		seen[key] = true
+		run := e.NewWorker(0)
+		seq := run(q.v)
+		stable := true
+		for i := 0; i < 4; i++ {
+			if r2 := run(q.v); r2.Sig != seq.Sig || r2.Outcome != seq.Outcome {
+				stable = false
+			}
+		}
+		vv := q.v
+		if !stable {
+			c.Internal(fmt.Sprintf("violation candidate not reproducible in %s for %v, also when executed alone: %+v vs %+v", e.Part, e.Space.Describe(q.v), q.first, q.other))
+			continue
+		}
+		if seq.Sig != "" {
+			c.Record(e.Part, seq, func() any { return e.Space.Describe(vv) })
+			continue
+		}
+		cases := append([]Vec{q.v}, q.batch...)
+		if len(cases) > 33 {
+			cases = cases[:33]
+		}
+		if bad, desc := c.interference(e, cases, 3*time.Second); bad != nil {
+			c.Record(e.Part, *bad, func() any { return desc })
+		} else {
+			c.Internal(fmt.Sprintf("violation candidate not reproducible in %s for %v: %+v vs %+v (alone it is stable and fine; no interference reproduced)", e.Part, e.Space.Describe(q.v), q.first, q.other))
+		}
+	}
+}
+
+// interference executes cases sequentially (reference), then concurrently from Workers() goroutines until budget is
+// used up or a result differs from its reference.
+func (c *Check) interference(e *E1, cases []Vec, budget time.Duration) (*Result, map[string]string) {
+	ref := make([]Result, len(cases))
+	run0 := e.NewWorker(0)
+	for i, v := range cases {
+		ref[i] = run0(v)
+	}
+	var found atomic.Pointer[struct {
+		i   int
+		got Result
+	}]
+	end := time.Now().Add(budget)
+	var wg sync.WaitGroup
+	for w := 0; w < Workers(); w++ {
+		wg.Add(1)
+		go func(w int) {
+			defer wg.Done()
+			run := e.NewWorker(w)
+			for round := 0; found.Load() == nil && time.Now().Before(end); round++ {
+				for k := range cases {
+					i := (k + w*7 + round) % len(cases)
+					if got := run(cases[i]); got.Outcome != ref[i].Outcome || got.Sig != ref[i].Sig {
+						found.CompareAndSwap(nil, &struct {
+							i   int
+							got Result
+						}{i, got})
+						return
+					}
+				}
+			}
+		}(w)
+	}
+	wg.Wait()
+	f := found.Load()
+	if f == nil {
+		return nil, nil
+	}
+	with := make([]map[string]string, 0, len(cases))
+	for _, v := range cases {
+		with = append(with, e.Space.Describe(v))
+	}
+	wb, _ := json.Marshal(with)
+	desc := e.Space.Describe(cases[f.i])
+	desc["__concurrent_with"] = string(wb)
+	r := Bad(ref[f.i].Rule, f.got.Outcome, c.Prop+"/interference/"+e.Part+"/result-depends-on-concurrent-calls",
+		fmt.Sprintf("executed alone (5x) the case yields %q; executed while other goroutines call the library with the other cases of its batch it yielded %q %s - calls disturb each other through state shared inside the library (free-running confirmation, schedules sampled)",
+			ref[f.i].Outcome, f.got.Outcome, f.got.Detail))
+	return &r, desc
+}
+
+// replayConcurrent re-runs an interference replay file: the recorded cases, alone and then concurrently.
+func (c *Check) replayConcurrent(e *E1, desc map[string]string) {
+	var with []map[string]string
+	if err := json.Unmarshal([]byte(desc["__concurrent_with"]), &with); err != nil {
+		c.Internal("replay: " + err.Error())
+		return
+	}
+	var cases []Vec
+	for _, d := range with {
+		v, err := e.Space.FromDescription(d)
+		if err != nil {
+			c.Internal("replay: " + err.Error())
+			return
+		}
+		cases = append(cases, v)
+	}
+	bad, d := c.interference(e, cases, 10*time.Second)
+	if bad == nil {
+		fmt.Printf("REPLAY part=%s concurrent replay of %d cases: no interference observed in 10s\n", e.Part, len(cases))
+		return
+	}
+	fmt.Printf("REPLAY part=%s concurrent replay\n  sig=%q\n  %s\n", e.Part, bad.Sig, bad.Detail)
+	c.Record(e.Part, *bad, func() any { return d })
 }
